@@ -282,4 +282,183 @@ theorem parseInterest_name_ti (E : EncSpecs) (r : Rd) (V rest : Bytes) (fn : Nam
 
 end
 
+/-! ### tamper detection -/
+
+/-- a packet that is exactly one Interest TLV: a successful `ReadInterest` parsed the value with a
+    fresh context and `checkInterest` accepted the result -/
+theorem readInterest_single_ti (R : ReaderSpecs) (H : Bytes → Bytes) (r : Rd) (V : Bytes) (hL : V.length < 2 ^ 62)
+    (hr : At r (encTL 5 ++ encTL V.length ++ V) 0) (x : InterestP × Bytes) (e : readInterest H r = .ok x) :
+    ∃ sub s, At sub V 0 ∧ parseInterest {} sub = .ok s ∧ checkInterest H s = true ∧ x = (s.v, s.sigCovered) := by
+  have hb : (encTL 5 ++ encTL V.length ++ V).drop 0 = encTL 5 ++ (encTL V.length ++ (V ++ [])) := by simp
+  obtain ⟨r2, a2, l2, d2, e2⟩ := tlvLoop_step R packetBody (r.length - r.pos) ({} : PacketSt) r _ 0 5 V.length (V ++ [])
+    hr hb (by omega) (by omega)
+  obtain ⟨sub, r3, e3, as, a3⟩ := delegate_at R r2 _ _ V [] a2 d2
+  simp only [readInterest] at e
+  obtain ⟨ps, e4, e5⟩ := bind_ok_inv e
+  simp only [parsePacket, loopFuel] at e4
+  obtain ⟨⟨ps', rend⟩, e6, e7⟩ := bind_ok_inv e4
+  obtain rfl : ps' = ps := by simpa using e7
+  rw [e2] at e6
+  obtain ⟨⟨ps1, r4⟩, e8, e9⟩ := bind_ok_inv e6
+  simp only [packetBody, e3] at e8
+  simp at e8
+  obtain ⟨s, e10, e11⟩ := bind_ok_inv e8
+  simp at e11
+  obtain ⟨rfl, rfl⟩ := e11
+  have hend : (encTL 5 ++ encTL V.length ++ V).drop (0 + tlLen 5 + tlLen V.length + V.length) = [] := by
+    apply List.drop_eq_nil_of_le
+    simp [encTL_length]; omega
+  have hf : 0 < r.length - r.pos := by
+    rw [R.pos_eq r _ 0 hr, R.length_eq r _ 0 hr]; simp [encTL_length]; have := tlLen_pos 5; omega
+  rw [tlvLoop_end' R packetBody _ _ r3 _ _ a3 hend hf] at e9
+  obtain ⟨rfl, _⟩ : ps' = _ ∧ rend = r3 := by simpa using e9.symm
+  simp at e5
+  split at e5
+  · rename_i hchk
+    have hx : (s.v, s.sigCovered) = x := by simpa using e5
+    exact ⟨sub, s, as, e10, hchk, hx.symm⟩
+  · cases e5
+
+/-- the head part (Name … HopLimit) of a built Interest is decoded identically on ANY buffer that
+    starts with those bytes: the loop arrives at the end of the head with `progress` still before the
+    offset markers and untouched digest bookkeeping -/
+theorem head_reach_ti (R : ReaderSpecs) (E : EncSpecs) (i : InterestIn) (fn : Name) (sv : Bytes)
+    (hr : InterestReady i fn sv) (buf rest : Bytes) (r0 : Rd) (hbuf : buf = interestHead i fn ++ rest)
+    (h0 : At r0 buf 0) :
+    ∃ r7 q7 st7, q7 ≤ 9 ∧ At r7 buf (interestHead i fn).length ∧ st7.digestCoverStart = 0 ∧ st7.digestCovered = []
+      ∧ Reach buf 0 (({} : InterestSt), 0) r0 (interestHead i fn).length (st7, q7) r7 := by
+  have hb0 : buf.drop 0 = encNameField 7 fn ++ (boolField 33 i.cbp ++ (boolField 18 i.mbf
+      ++ (optB i.fh (fun ns => encTL 30 ++ encTL (linksLen ns) ++ encLinks ns)
+      ++ (optB i.nonce encNonce ++ (optB i.lt (encNatField 12) ++ (optB i.hl encHopLimit
+      ++ rest)))))) := by
+    rw [hbuf]; simp only [List.drop_zero, interestHead, List.append_assoc]
+  obtain ⟨r1, X, a1, d1, hX, R1⟩ := el_name R E fn {} (q := 0) h0 hb0 hr.nameValid hr.nameLen (by omega)
+  obtain ⟨r2, q2, hq2, a2, d2, R2⟩ := el_cbp R i.cbp
+    ({ v := { name := some fn }, sigCovered := X } : InterestSt) (q := 3) a1 d1 (by omega) rfl
+  obtain ⟨r3, q3, hq3, a3, d3, R3⟩ := el_mbf R i.mbf
+    ({ v := { name := some fn, cbp := i.cbp }, sigCovered := X } : InterestSt) a2 d2 hq2 rfl
+  obtain ⟨r4, q4, hq4, a4, d4, R4⟩ := el_fh R E i.fh
+    ({ v := { name := some fn, cbp := i.cbp, mbf := i.mbf }, sigCovered := X } : InterestSt) rfl a3 d3
+    hr.fhValid hr.fhLen hq3 rfl
+  obtain ⟨r5, q5, hq5, a5, d5, R5⟩ := el_nonce R i.nonce
+    ({ v := { name := some fn, cbp := i.cbp, mbf := i.mbf, fh := i.fh }, sigCovered := X } : InterestSt) a4 d4
+    hr.nonce hq4 rfl
+  obtain ⟨r6, q6, hq6, a6, d6, R6⟩ := el_lt R i.lt
+    ({ v := { name := some fn, cbp := i.cbp, mbf := i.mbf, fh := i.fh, nonce := i.nonce }, sigCovered := X } : InterestSt)
+    a5 d5 hr.lt hq5 rfl
+  obtain ⟨r7, q7, hq7, a7, d7, R7⟩ := el_hl R i.hl
+    ({ v := { name := some fn, cbp := i.cbp, mbf := i.mbf, fh := i.fh, nonce := i.nonce, lt := i.lt },
+       sigCovered := X } : InterestSt) a6 d6 hr.hl hq6 rfl
+  have RH := R1.trans (R2.trans (R3.trans (R4.trans (R5.trans (R6.trans R7)))))
+  clear R1 R2 R3 R4 R5 R6 R7
+  have hpos : 0 + (encNameField 7 fn).length + (boolField 33 i.cbp).length + (boolField 18 i.mbf).length
+      + (optB i.fh (fun ns => encTL 30 ++ encTL (linksLen ns) ++ encLinks ns)).length
+      + (optB i.nonce encNonce).length + (optB i.lt (encNatField 12)).length + (optB i.hl encHopLimit).length
+      = (interestHead i fn).length := by
+    simp only [interestHead, List.length_append]; omega
+  rw [hpos] at RH a7
+  exact ⟨r7, q7, _, hq7, a7, rfl, rfl, RH⟩
+
+/-- Tamper detection by the parameters digest: `b` a built Interest WITH parameters, `b'` of the same
+    length, equal to `b` except at byte `k`, where `k` lies at or after the first byte of the
+    ApplicationParameters element (i.e. in the parameters, SignatureInfo or SignatureValue).  If the hash
+    has no collision with the original digest input (`hinj`), decoding `b'` fails — for every healthy
+    reader, signed or not. -/
+theorem bitflip_detected_interest_digest (R : ReaderSpecs) (R2 : ReaderSpecs2) (E : EncSpecs)
+    (i : InterestIn) (sign H : Bytes → Bytes) (e : Encoded) (fn : Name)
+    (hv : i.Valid) (hH : ∀ x, (H x).length = 32) (hm : makeInterest i sign H = .ok (e, fn)) (hap : i.ap.isSome)
+    (hinj : ∀ x, H x = H (interestParamsPortion i e.sigVal) → x = interestParamsPortion i e.sigVal)
+    (b' : Bytes) (k : Nat) (hlen : b'.length = e.wire.flatten.length)
+    (hk : b'.getD k 0 ≠ e.wire.flatten.getD k 0) (hsame : ∀ j, j ≠ k → b'.getD j 0 = e.wire.flatten.getD j 0)
+    (hreg : e.wire.flatten.length - (interestParamsPortion i e.sigVal).length ≤ k ∧ k < e.wire.flatten.length)
+    (r : Rd) (hr : At r b' 0) : ∀ x, readInterest H r ≠ .ok x := by
+  intro x hrd
+  obtain ⟨hfn, hfl, _, _⟩ := E.makeInterest_flatten i sign H e fn hv hH hm
+  obtain ⟨hrdy, hL⟩ := interestReady_of_int E i sign H e fn hv hH hm
+  obtain ⟨P, hP⟩ : ∃ P, P = interestParamsPortion i e.sigVal := ⟨_, rfl⟩
+  obtain ⟨Hd, hHd⟩ : ∃ Hd, Hd = interestHead i fn := ⟨_, rfl⟩
+  have hVeq : interestValue i fn e.sigVal = Hd ++ P := by rw [hHd, hP]; rfl
+  rw [hVeq] at hfl hL
+  rw [← hP] at hinj hreg
+  have h5 : tlLen 5 = 1 := by decide
+  have hfl_len : e.wire.flatten.length = 1 + tlLen (Hd ++ P).length + (Hd.length + P.length) := by
+    rw [hfl]; simp only [List.length_append, encTL_length, h5]
+  have heq : e.wire.flatten = (encTL 5 ++ encTL (Hd ++ P).length ++ Hd) ++ P ++ [] := by
+    rw [hfl]; simp only [List.append_assoc, List.append_nil]
+  have hAl : (encTL 5 ++ encTL (Hd ++ P).length ++ Hd).length = e.wire.flatten.length - P.length := by
+    rw [hfl_len]; simp only [List.length_append, encTL_length, h5]; omega
+  obtain ⟨hk1, hk2⟩ := hreg
+  rw [heq] at hlen hk hsame
+  obtain ⟨P', hb', hP'l, hP'ne⟩ := splice_mid _ _ _ b' k hlen hk hsame (by rw [hAl]; exact hk1) (by rw [hAl]; omega)
+  have hV' : (Hd ++ P').length = (Hd ++ P).length := by simp only [List.length_append, hP'l]
+  have hb2 : b' = encTL 5 ++ encTL (Hd ++ P').length ++ (Hd ++ P') := by
+    rw [hV', hb']; simp only [List.append_assoc, List.append_nil]
+  rw [hb2] at hr
+  obtain ⟨sub, s, as, hp, hchk, _⟩ := readInterest_single_ti R H r _ (by rw [hV']; omega) hr x hrd
+  -- the Name is the original one
+  obtain ⟨rest, hrest⟩ : ∃ rest, Hd ++ P' = encNameField 7 fn ++ rest :=
+    ⟨_, by rw [hHd]; simp only [interestHead, List.append_assoc]; rfl⟩
+  have hname : s.v.name = some fn :=
+    parseInterest_name_ti R R2 E sub (Hd ++ P') rest fn s hrest hrdy.nameValid hrdy.nameLen as hp
+  -- the head part is decoded as in the original
+  obtain ⟨r7, q7, st7, hq7, a7, hd0, hdc, RH⟩ := head_reach_ti R E i fn e.sigVal hrdy (Hd ++ P') P' sub (by rw [hHd]) as
+  rw [← hHd] at a7 RH
+  have hK : K_ti (Hd ++ P') Hd.length 0 none st7 q7 Hd.length :=
+    ⟨Nat.le_refl _, by omega, Or.inl hd0, fun _ => hdc, ⟨0, by simp [hdc], by omega⟩, Nat.zero_le _, fun h => by omega⟩
+  obtain ⟨q', _, _, k3, _, ⟨n, k5, k5'⟩, _, _⟩ := parseInterest_from_ti R R2 (Hd ++ P') Hd.length 0 none sub s st7 q7 _ r7 as hp RH a7 hK
+  -- what `checkInterest` demanded
+  have hfn' : fn = stripDigest i.name ++ [digestComp (H P)] := by
+    rw [hfn, hP]; unfold interestFinalName; rw [if_pos hap]
+  obtain ⟨c, hc⟩ : ∃ c, i.ap = some c := by cases hi : i.ap with
+    | none => simp [hi] at hap
+    | some c => exact ⟨c, rfl⟩
+  have hP36 : ∃ t, P = 36 :: t := by
+    rw [hP]; simp [interestParamsPortion, hc, optB, encTL]
+  unfold checkInterest at hchk
+  rw [hname] at hchk
+  simp only [] at hchk
+  have hgl : fn.getLast? = some (digestComp (H P)) := by rw [hfn']; simp
+  rw [hgl] at hchk
+  simp only [] at hchk
+  cases hsap : s.v.ap with
+  | none => simp [hsap, digestComp] at hchk
+  | some apv =>
+    simp [hsap, digestComp] at hchk
+    have hdP : s.digestCovered = P := hinj _ hchk.symm
+    have hlenP : P.length = n := by
+      have := congrArg List.length k5
+      rw [hdP] at this
+      simp only [List.length_take, List.length_drop] at this
+      omega
+    obtain ⟨t, ht⟩ := hP36
+    rcases k3 with h0 | hlo
+    · -- the start marker was never set: the range would begin with the Name element
+      have hu : encNameField 7 fn ++ rest = 7 :: (encTL (nameLen fn) ++ encNameInner fn ++ rest) := by
+        simp [encNameField, encTL_small_int]
+      rw [h0, hdP, hrest, hu, ← hlenP, ht] at k5
+      simp at k5
+    · -- the start marker is at the end of the head: the range is the altered portion
+      have hd : s.digestCoverStart = Hd.length := by
+        simp only [List.length_append] at k5'; omega
+      apply hP'ne
+      rw [hd, hdP, List.drop_left, ← hlenP, ← hP'l, List.take_length] at k5
+      exact k5.symm
+
+/-! ### the theorems for every healthy reader (BufferReader, or WireReader over any segmentation) -/
+
+theorem parseInterest_digest_all (r : Rd) (V : Bytes) (s : InterestSt) :
+    At r V 0 → parseInterest {} r = .ok s →
+    ∃ n, s.digestCoverStart + n ≤ V.length ∧ s.digestCovered = (V.drop s.digestCoverStart).take n :=
+  parseInterest_digest readerSpecs readerSpecs2 r V s
+
+theorem bitflip_detected_interest_digest_all (E : EncSpecs)
+    (i : InterestIn) (sign H : Bytes → Bytes) (e : Encoded) (fn : Name)
+    (hv : i.Valid) (hH : ∀ x, (H x).length = 32) (hm : makeInterest i sign H = .ok (e, fn)) (hap : i.ap.isSome)
+    (hinj : ∀ x, H x = H (interestParamsPortion i e.sigVal) → x = interestParamsPortion i e.sigVal)
+    (b' : Bytes) (k : Nat) (hlen : b'.length = e.wire.flatten.length)
+    (hk : b'.getD k 0 ≠ e.wire.flatten.getD k 0) (hsame : ∀ j, j ≠ k → b'.getD j 0 = e.wire.flatten.getD j 0)
+    (hreg : e.wire.flatten.length - (interestParamsPortion i e.sigVal).length ≤ k ∧ k < e.wire.flatten.length)
+    (r : Rd) (hr : At r b' 0) : ∀ x, readInterest H r ≠ .ok x :=
+  bitflip_detected_interest_digest readerSpecs readerSpecs2 E i sign H e fn hv hH hm hap hinj b' k hlen hk hsame hreg r hr
+
 end Ndn.C12
